@@ -344,6 +344,25 @@ theorem time_roundtrip_witness : ¬ Statement_time_roundtrip := by
   revert hv
   decide
 
+/-! ## 7. the binary datatypes: xsd:hexBinary and xsd:base64Binary codecs -/
+
+/-- `hexlify`/`_unhexlify` and `b64encode`/`b64decode` (the loop of `binascii.a2b_base64`, non-strict): what the
+    encoder writes is in the XSD lexical space, denotes the bytes encoded and is decoded to them again; and every
+    form of the XSD lexical space (RFC 4648 alphabet and padding, for base64Binary a single space allowed after any
+    character but the last) is decoded to the octets XSD assigns to it -/
+def Statement_binary_codecs : Prop :=
+  (∀ b : List Nat, (∀ x ∈ b, x < 256) →
+    unhexlify (hexlify b) = some b ∧ Spec.hexLex (hexlify b) = true ∧
+    b64decode (b64encode b) = some b ∧ Spec.b64Lex (b64encode b) = true ∧ Spec.b64ValOf (b64encode b) = b) ∧
+  (∀ s, Spec.hexLex s = true → unhexlify s = some (Spec.hexVal s)) ∧
+  (∀ s, Spec.b64Lex s = true → b64decode s = some (Spec.b64ValOf s)) ∧
+  (∀ s b, (unhexlify s = some b ∨ b64decode s = some b) → ∀ x ∈ b, x < 256)
+
+theorem binary_codecs : Statement_binary_codecs :=
+  ⟨fun _ h => ⟨unhexlify_hexlify h, hexLex_hexlify h, b64decode_b64encode h, (b64Lex_b64encode h).1, (b64Lex_b64encode h).2⟩,
+    fun _ h => unhexlify_xsd h, fun _ h => b64decode_xsd h,
+    fun _ _ h => h.elim unhexlify_lt b64decode_lt⟩
+
 /-! ## Non-vacuity: the hypotheses are met by concrete, non-trivial instances -/
 
 example : XsdTz (some (-50400000000)) ∧ ¬ XsdTz (some 1000000) ∧ TzOk (some 86340000000) := by
@@ -355,6 +374,10 @@ example : durationIso (-2) 10 (-273906700000) true = some "-P1Y2M3DT4H5M6.7S".to
     tdInRange (-273906700000) = true := by decide
 
 
+example : Spec.validLex .base64Binary "YW Jj ZA==".toList = true ∧ Covered .base64Binary = true ∧
+    b64decode "YW Jj ZA==".toList = some [97, 98, 99, 100] ∧ Spec.validLex .base64Binary "YWJj ".toList = false ∧
+    b64decode "YQ=".toList = none ∧ b64decode "YQ=a=".toList = some [97, 6] ∧ b64decode "YQ=YQ==".toList = some [97, 6, 16] ∧ b64encode [97, 98, 99, 100] = "YWJjZA==".toList := by
+  decide +kernel
 example : Spec.validLex .unsignedByte "+0255".toList = true ∧ Covered .unsignedByte = true := by decide
 example : Spec.validLex .decimal "-.50".toList = true ∧ Covered .decimal = true := by decide
 example : ∃ l, mkLex (some .integer) ['-', '0'] true = some l ∧ l.lex = ['0'] ∧ Built l :=
